@@ -243,4 +243,15 @@ theorem hoist_conserves_tokens (s : String) (hs : ∀ b e i, (Var.ew b e i).rend
     exact key _
   · simp [sumList, List.map_map, Function.comp_def]
 
+/-- Non-vacuity of `UserIdent`: an identifier such as `user_marker` never occurs among the templates' own tokens, whereas
+    `map` does (the template of `|>`): the hypothesis of `emit_conserves_tokens` holds for the former only. -/
+instance (s : String) : Decidable (UserIdent s) := by unfold UserIdent; infer_instance
+example : UserIdent "user_marker" := by decide
+example : ¬ UserIdent "map" := by decide
+
+/-- …and a concrete instance of the conclusion: `|> user_marker(user_marker)` keeps both occurrences. -/
+example : (match emitTokens .map [[.ident "user_marker", paren [.ident "user_marker"]]] with
+    | .ok r => cntToks "user_marker" r
+    | .error _ => 0) = 2 := by decide
+
 end JoinModel.Props.C10
